@@ -14,6 +14,7 @@ import (
 	"testing"
 	"time"
 
+	ipamutils "tkestack.io/galaxy/pkg/ipam/utils"
 	"tkestack.io/galaxy/pkg/utils/nets"
 )
 
@@ -177,4 +178,38 @@ func TestVerifReplayNodeSubnetsIntersection(t *testing.T) {
 		}
 	}
 	fmt.Println("NOT-REPRODUCED: offered subnets", subnets.List(), "serve every range list")
+}
+
+// (*crdIpam).ConfigurePool#lock:crdIpam.*: the tables and the pool list must only be read with
+// cacheLock held. Replay (run under the race detector): a reload runs concurrently with
+// allocations and releases; the detector reports the unsynchronised reads of the deferred log.
+func TestVerifReplayConfigurePoolLogRace(t *testing.T) {
+	ipam := createTestCrdIPAM(t)
+	done := make(chan struct{})
+	go func() {
+		defer close(done)
+		for i := 0; i < 200; i++ {
+			// a fresh configuration object per reload, as ensureIPAMConf does
+			var cfg struct {
+				Floatingips []*FloatingIPPool `json:"floatingips"`
+			}
+			if err := json.Unmarshal([]byte(ipamutils.TestConfig), &cfg); err != nil {
+				t.Error(err)
+				return
+			}
+			if err := ipam.ConfigurePool(cfg.Floatingips); err != nil {
+				t.Error(err)
+				return
+			}
+		}
+	}()
+	_, subnet, _ := net.ParseCIDR("10.49.27.0/24")
+	for i := 0; i < 200; i++ {
+		key := fmt.Sprintf("dp_ns1_dp_pod-%d", i)
+		if ip, err := ipam.AllocateInSubnet(key, subnet, Attr{}); err == nil {
+			_ = ipam.Release(key, ip)
+		}
+	}
+	<-done
+	fmt.Println("NOT-REPRODUCED (unless the race detector printed a DATA RACE report above)")
 }
